@@ -41,6 +41,19 @@ def propagate_viability_from_node(node: AttackGraphNode) -> None:
         if child.is_viable != original_value:
             propagate_viability_from_node(child)
 
+def _is_necessary_for_children(node: AttackGraphNode) -> bool:
+    """
+    Return the necessity status of the node as seen by its children. Nodes
+    that have a TTC probability distribution associated with them always
+    count as necessary for their children.
+    """
+    if node.ttc and 'name' in node.ttc:
+        if node.ttc['name'] not in ['Enabled', 'Disabled']:
+            # TODO: Evaluate this more carefully, how do we want to have TTCs
+            # impact necessity and viability.
+            return True
+    return node.is_necessary
+
 def propagate_necessity_from_node(node: AttackGraphNode) -> None:
     """
     Arguments:
@@ -52,13 +65,10 @@ def propagate_necessity_from_node(node: AttackGraphNode) -> None:
         node.full_name, node.id, node.is_necessary
     )
 
-    if node.ttc and 'name' in node.ttc:
-        if node.ttc['name'] not in ['Enabled', 'Disabled']:
-            # Do not propagate unnecessary state from nodes that have a TTC
-            # probability distribution associated with them.
-            # TODO: Evaluate this more carefully, how do we want to have TTCs
-            # impact necessity and viability.
-            return
+    if _is_necessary_for_children(node):
+        # Do not propagate unnecessary state from nodes that have a TTC
+        # probability distribution associated with them.
+        return
 
     for child in node.children:
         original_value = child.is_necessary
@@ -67,7 +77,8 @@ def propagate_necessity_from_node(node: AttackGraphNode) -> None:
         if child.type == 'and':
             child.is_necessary = False
             for parent in child.parents:
-                child.is_necessary = child.is_necessary or parent.is_necessary
+                child.is_necessary = child.is_necessary or \
+                    _is_necessary_for_children(parent)
 
         # TODO: Update TTC for child attack step before if it is not necessary
         # before propagating it further.
